@@ -257,7 +257,7 @@ impl Workload for Search {
             Ok(r) => r,
             Err(e) => {
                 out.evals = 0;
-                out.verdict = Verdict::Skipped(if e.starts_with("budget") { "reference budget exceeded" } else { "outside the statements' domain" });
+                out.verdict = Verdict::Skipped(if e.starts_with("budget") { "reference budget exceeded" } else if e.contains("left open") { "cut in a parenthesised group: retry of the goals after it is left open by the statement" } else { "outside the statements' domain" });
                 return out;
             }
         };
